@@ -1026,7 +1026,7 @@ func main() {
 
 		// ---- result routing
 		assignSrc, assignDst, retDst, defDst := ".unrecognised", ".unrecognised", ".unrecognised", ".unrecognised"
-		retBase := "false"
+		retBase := ".unrecognised"
 		if n := find(cb, func(n ast.Node) bool {
 			sw, ok := n.(*ast.SwitchStmt)
 			return ok && sw.Tag != nil && str(sw.Tag) == "n.anc.action"
@@ -1072,11 +1072,31 @@ func main() {
 						}
 					}
 				case len(cc.List) == 1 && str(cc.List[0]) == "aReturn":
+					// `b := childPos(n)` (the result slot of the operand, until 28d3d87) or `b := 0; if len(n.anc.child) > 1 { b = n.findex }`
+					// (the call's own location when the return statement has several operands: the statement assigns them)
 					if as := find(cc, func(n ast.Node) bool {
 						a, ok := n.(*ast.AssignStmt)
-						return ok && len(a.Lhs) == 1 && str(a.Lhs[0]) == "b"
-					}); as != nil && str(as.(*ast.AssignStmt).Rhs[0]) == "childPos(n)" {
-						retBase = "true"
+						return ok && a.Tok == token.DEFINE && len(a.Lhs) == 1 && str(a.Lhs[0]) == "b"
+					}); as != nil {
+						own := find(cc, func(n ast.Node) bool {
+							is, ok := n.(*ast.IfStmt)
+							return ok && is.Init == nil && is.Else == nil && nospace(str(is.Cond)) == "len(n.anc.child)>1" && len(is.Body.List) == 1 &&
+								nospace(str(is.Body.List[0])) == "b=n.findex"
+						}) != nil
+						otherB := len(findAll(cc, func(n ast.Node) bool {
+							a, ok := n.(*ast.AssignStmt)
+							return ok && a.Tok == token.ASSIGN && len(a.Lhs) == 1 && str(a.Lhs[0]) == "b"
+						}))
+						switch rhs := str(as.(*ast.AssignStmt).Rhs[0]); {
+						case rhs == "childPos(n)" && otherB == 0:
+							retBase = ".childPos"
+						case rhs == "0" && own && otherB == 1:
+							retBase = ".zeroOrOwn"
+						default:
+							note("aReturn: base `b := %s`, %d further assignments", rhs, otherB)
+						}
+					} else {
+						note("aReturn: no `b := …`")
 					}
 					if rs := find(cc, func(n ast.Node) bool {
 						r, ok := n.(*ast.RangeStmt)
@@ -1380,7 +1400,7 @@ def facts : Facts :=
     assignSrcIdx := %s,
     assignDstIdx := %s,
     returnDstIdx := %s,
-    returnBaseIsChildPos := %s,
+    returnBase := %s,
     defaultDstIdx := %s,
     defineXCell := %s,
     branchDstIdx := %s,
